@@ -36,6 +36,8 @@ SECRET_BLOCKS = [bytes.fromhex(h) for h in (
     '0f1e2d3c4b5a69788796a5b4c3d2e1f0', '13579bdf02468ace8642fdb97531eca0')]
 TREE1 = {'SECRETNAME-alpha.bin': SECRET_BLOCKS[0] + SECRET_BLOCKS[1] + SECRET_BLOCKS[0], 'dir-omega/SECRETNAME-beta': SECRET_BLOCKS[2]}
 TREE2 = {'SECRETNAME-alpha.bin': SECRET_BLOCKS[0] + SECRET_BLOCKS[3], 'SECRETNAME-gamma': SECRET_BLOCKS[4] * 2}
+# one chunk repeated more often than the chunk queue holds (for the stale-exists mode)
+TREE1_REP = dict(TREE1, **{'SECRETNAME-repeated': SECRET_BLOCKS[1] * 64})
 
 
 def windows(b, w=8):
@@ -85,9 +87,18 @@ def run_config(args):
     sc = H.worker_scratch()
     root = sc.sub()
     src1, src2 = root / 'src1', root / 'src2'
-    W.write_tree(src1, TREE1, mtime_base=1_611_111_111)
+    W.write_tree(src1, TREE1_REP if mode == 'stale-exists' else TREE1, mtime_base=1_611_111_111)
     W.write_tree(src2, TREE2, mtime_base=1_622_222_222)
     st = W.Store()
+    if mode == 'stale-exists':
+        # an eventually consistent store: every third existence check of a stored object says "missing"
+        cnt = {'n': 0}
+
+        def stale(name, idx):
+            cnt['n'] += 1
+            return name.startswith('data/') and cnt['n'] % 3 == 0
+
+        st.stale_exists = stale
     W.set_random('c05', real=True)   # nonce freshness is what this check looks at
     W.set_clock()
     settings = {'chunking': {'min_length': chunker[0], 'max_length': chunker[1]}, 'hashing': dict(ha),
@@ -114,15 +125,15 @@ def run_config(args):
         keyA = repo.serialize(res.key)
         keyfiles['A(stdout)'] = keyA
         users['A'] = W.User('A', PASSWORDS['A'], keyA)
-        repos = {'A': repo} if mode == 'long-lived' else {}
+        repos = {'A': repo} if mode in ('long-lived', 'stale-exists') else {}
 
         async def get(u):
-            if mode == 'long-lived' and u in repos:
+            if mode in ('long-lived', 'stale-exists') and u in repos:
                 return repos[u]
             r = W.make_repo(st, N=2)
             with W.captured():
                 await r.unlock(password=users[u].password, key=users[u].key)
-            if mode == 'long-lived':
+            if mode in ('long-lived', 'stale-exists'):
                 repos[u] = r
             return r
 
@@ -210,9 +221,10 @@ def run_config(args):
         owner = 'A' if u.startswith('A(') else u
         if owner in readers:
             kobj = F.loads(kb)
-            note_nonce(readers[owner].userkey, kobj['private'], nlen, f'private section of key {u}')
             if set(kobj) != {'kdf', 'kdf_params', 'private'} or not isinstance(kobj['private'], bytes):
-                bad('key-file-structure', keys=sorted(kobj))
+                bad('key-file-private-section-not-sealed', key=u, keys=sorted(kobj), private_type=type(kobj.get('private')).__name__)
+            else:
+                note_nonce(readers[owner].userkey, kobj['private'], nlen, f'private section of key {u}')
     snap_bodies = [(n, d) for n, d in every_written if n.startswith('snapshots/')]
     chunk_bodies = [(n, d) for n, d in every_written if n.startswith('data/')]
     plain_digests = set()
@@ -276,6 +288,13 @@ def run_config(args):
                     break
         if not ok:
             bad('chunk-name-not-a-keyed-mac-of-a-known-digest', name=name)
+    # nonces must be random: over this many ciphertexts no byte position of the nonce may be constant
+    nonces = [k[1] for k in nonce_seen]
+    if len(nonces) >= 40:
+        for pos in range(nlen):
+            if len({n[pos] for n in nonces}) < 2:
+                bad('nonce-byte-constant', position=pos, ciphertexts=len(nonces))
+                break
     # ---- the search
     nscan = 0
     for name, body in list(all_objects.items()) + every_written:
@@ -323,6 +342,9 @@ def main():
     for ch in ((8, 16), (16, 16), (1, 4)):
         for ci in (CIPHERS[0], CIPHERS[3]):
             cases.append((ci, HASHES[0], 'fresh', ch))
+    for ci in CIPHERS:
+        for ch in ((16, 16), (4, 8)):
+            cases.append((ci, HASHES[1], 'stale-exists', ch))
     n = scanned = 0
     for k, vs in common.pmap(run_config, common.shuffled(cases, 'c05'), ordered=False):
         n += 1
@@ -344,4 +366,4 @@ def main():
 
 
 if __name__ == '__main__':
-    sys.exit(main())
+    sys.exit(common.run_main(main))
